@@ -279,6 +279,30 @@ def property_generators(P):
     return list(dict.fromkeys(gens))
 
 
+def tree_differs(main):
+    """why the tree is not the verified baseline (None if it is): used only to decide whether to run the generators as a safety net"""
+    if main["failed_clauses"]:
+        return "failing clause " + sorted(main["failed_clauses"])[0]
+    if main["failed_fns"]:
+        return "failing body obligation in " + sorted(main["failed_fns"])[0]
+    if main["failed_theorems"]:
+        return "failing theorem " + sorted(main["failed_theorems"])[0]
+    if main["refused"]:
+        return "function outside the extraction rules: " + sorted(main["refused"])[0]
+    new_fns = [k for k in main["uncontracted"] if "[From<" not in k] + list(main.get("auto_contracts", []))
+    if new_fns:
+        return "function new to the tree: " + new_fns[0]
+    if main.get("lost_contracts"):
+        return "function removed: " + main["lost_contracts"][0]
+    bp = os.path.join(VERIF, "verus", "baseline_files.json")
+    if os.path.exists(bp):
+        for rel, h in json.load(open(bp)).items():
+            fp = os.path.join(vxlib.REPO, rel)
+            if not os.path.exists(fp) or hashlib.sha256(open(fp, "rb").read()).hexdigest() != h:
+                return "file looked at by Kani / anchors only has changed: " + rel
+    return None
+
+
 def search_witness(P):
     """run the property's generators on the REAL code (concrete execution); returns (witness or None, log)"""
     wit_log = []
@@ -478,6 +502,18 @@ def check_property(pid, tier, seed):
                                        + " ; ".join(u for a in alt_reports for u in a["undecided"])[:800]))
             else:
                 rc = 2
+    # ---- safety net: the property's own obligations are all discharged, but the tree is not the one the contracts were written for
+    # (some clause / body obligation / theorem fails somewhere, a function is refused or new, or a file that only Kani looks at changed).
+    # The property's generators are then run on the real code as well: a concrete failing input is a violation; none found => the verdict stays OK.
+    net_log = None
+    if holds and rc == 0:
+        why = tree_differs(main)
+        if why:
+            witness, gen, net_log = search_witness(P)
+            if witness:
+                holds, rc = False, 1
+                violations.append(("-", "replay", f"replay::{gen}", "every listed obligation of this property is discharged, but the tree differs from the verified baseline ("
+                                   + why[:300] + ") and the property's generator found a failing input on the real code"))
     replay_path = None
     if holds:
         for ob, kf in known_lines:
